@@ -1,4 +1,6 @@
 SPECIFICATION Spec
-CONSTANT MaxStr = 3
+CONSTANTS
+  MaxStr = 3
+  Deep = TRUE
 INVARIANTS RefRoundTrip OrderMatters TypeMatters LeafMatters Eq11Refl EncoderAudit ReaderAudit
 CHECK_DEADLOCK FALSE
